@@ -8,6 +8,7 @@ import (
 	"verif/kit"
 
 	"github.com/mycoria/mycoria/config"
+	"github.com/mycoria/mycoria/frame"
 )
 
 // rawBytes feeds raw byte strings to parser, switch and router.
@@ -220,6 +221,75 @@ func linkReader(t *testing.T, rep *kit.Report, env kit.Env, evals, nontrivial, t
 						break // the reader now waits for the rest; end this link
 					}
 				}
+				w.Shutdown()
+			})
+		}
+	}
+	// (d) congestion: a neighbour completes the handshake and then stops reading,
+	// while an authenticated peer keeps sending frames the router must forward
+	// to it - more than either send queue of the link holds.
+	for _, kind := range []string{"ping(priority queue)", "traffic(regular queue)", "mixed"} {
+		for _, n := range []int{99, 101, 250, 1001, 1300} {
+			if !mine() {
+				continue
+			}
+			kind, n := kind, n
+			synctest.Test(t, func(t *testing.T) {
+				wd := kit.NewWorld()
+				add := func(name string, i int) *kit.Node {
+					nd, err := wd.AddNode(name, pool[i], config.Store{})
+					must(err)
+					return nd
+				}
+				a, b, x := add("A", 0), add("B", 1), add("X", 2)
+				_, _, err := wd.Connect(x, a, 31, 32, 5)
+				must(err)
+				watch := kit.WatchPanics(a)
+				w := kit.NewWire(a, b)
+				w.Start()
+				w.Pump(12)
+				if w.LinkA == nil {
+					panic("harness: handshake failed")
+				}
+				w.EA.StallWrites(true)
+				ping, err := kit.BuildPing(x, kit.PingSpec{Dst: b.Identity().IP, MsgType: frame.RouterPing, PingType: "pong", Body: []byte{1}, RawSign: true})
+				must(err)
+				f, err := x.FrameBuilder().NewFrameV1(x.Identity().IP, b.Identity().IP, frame.NetworkTraffic, nil, make([]byte, 80), nil)
+				must(err)
+				d, _ := f.FrameDataWithMargins(0, 0)
+				traffic := append([]byte(nil), d...)
+				f.ReturnToPool()
+				np := len(wd.Panics)
+				var pv any
+				for i := 0; i < n; i++ {
+					raw := ping
+					if kind[0] == 't' || (kind[0] == 'm' && i%2 == 1) {
+						raw = traffic
+					}
+					hp, hv := kit.Try(func() { wd.Inject(x, a, raw) })
+					if hp {
+						pv = hv
+						break
+					}
+					if len(wd.Panics) > np {
+						break
+					}
+					if i%100 == 0 {
+						synctest.Wait()
+					}
+				}
+				synctest.Wait()
+				*evals++
+				*nontrivial++
+				*transitions += int64(n)
+				what := fmt.Sprintf("%d frames of kind %s forwarded to a neighbour that stopped reading", n, kind)
+				if len(wd.Panics) > np {
+					rep.Violate("link/congestion/worker-panic/"+panicKey(wd.Panics[np]), fmt.Sprintf("router worker panicked: %s on %s", wd.Panics[np], what), what)
+					outcomes["panic"]++
+				} else {
+					report("congestion", watch, pv, what)
+				}
+				w.EA.StallWrites(false)
 				w.Shutdown()
 			})
 		}
